@@ -17,6 +17,8 @@ func init() {
 // encoder: the struct type whose tags drive the output there, and the
 // conjunction of branch conditions under which the site is reached.
 type emitSite struct {
+	lit   *ast.CompositeLit // the encode proxy literal, when the site encodes one
+	litFd *ast.FuncDecl     // function the literal is written in
 	st    types.Type
 	conds []condLit
 	pos   token.Pos
@@ -106,6 +108,9 @@ func (c *Ctx) emitSitesFor(fd *ast.FuncDecl, recv types.Object, comp string, bin
 								continue
 							}
 							gp := c.paramObj(gfd, ai)
+							if gsig := g.Type().(*types.Signature); gsig.Variadic() && ai >= gsig.Params().Len()-1 && x.Ellipsis == token.NoPos {
+								gp = c.paramObj(gfd, gsig.Params().Len()-1)
+							}
 							if gp == nil {
 								continue
 							}
@@ -121,6 +126,10 @@ func (c *Ctx) emitSitesFor(fd *ast.FuncDecl, recv types.Object, comp string, bin
 								}
 							}
 							for _, sub := range c.emitSitesFor(gfd, gp, "", gb, depth+1) {
+								// the helper takes the component as an interface: what is encoded is the argument's own type
+								if _, isIface := sub.st.Underlying().(*types.Interface); isIface {
+									sub.st = derefType(c.typeOf(a))
+								}
 								conds := append([]condLit{}, stack...)
 								for i := range conds {
 									if conds[i].recv == nil {
@@ -130,6 +139,37 @@ func (c *Ctx) emitSitesFor(fd *ast.FuncDecl, recv types.Object, comp string, bin
 								sub.conds = append(conds, sub.conds...)
 								sub.binds = gb
 								out = append(out, sub)
+							}
+						}
+					}
+				}
+				// a method called on the component itself (recv.Comp.encode(..)): its emissions of its own receiver are the component's
+				if g, ok := c.callee(x).(*types.Func); ok && g.Pkg() == c.Types && depth < 2 && comp != "" {
+					if se, isSel := unparen(x.Fun).(*ast.SelectorExpr); isSel {
+						if p, ok := c.apath(se.X); ok && p.Root == recv && len(p.Steps) == 1 && p.Steps[0] == comp {
+							if gfd := c.decl(g); gfd != nil && gfd.Body != nil && gfd.Recv != nil && c.recvObj(gfd) != nil {
+								gb := map[types.Object]condLit{}
+								for k, v := range binds {
+									gb[k] = v
+								}
+								for bi, ba := range x.Args {
+									if bp := c.paramObj(gfd, bi); bp != nil {
+										if b, isB := bp.Type().Underlying().(*types.Basic); isB && b.Kind() == types.Bool {
+											gb[bp] = condLit{e: ba, recv: recv}
+										}
+									}
+								}
+								for _, sub := range c.emitSitesFor(gfd, c.recvObj(gfd), "", gb, depth+1) {
+									conds := append([]condLit{}, stack...)
+									for i := range conds {
+										if conds[i].recv == nil {
+											conds[i].recv = recv
+										}
+									}
+									sub.conds = append(conds, sub.conds...)
+									sub.binds = gb
+									out = append(out, sub)
+								}
 							}
 						}
 					}
@@ -188,13 +228,23 @@ func (c *Ctx) emitSitesFor(fd *ast.FuncDecl, recv types.Object, comp string, bin
 						return true
 					})
 					if uses {
-						out = append(out, emitSite{st: c.typeOf(lit), conds: conds, pos: lit.Pos(), recv: recv})
+						out = append(out, emitSite{st: c.typeOf(lit), conds: conds, pos: lit.Pos(), recv: recv, lit: lit, litFd: fd})
 					}
 					return true
 				}
 				if p, ok := c.apath(arg); ok && p.Root == recv {
 					if comp == "" && len(p.Steps) == 0 || len(p.Steps) == 1 && p.Steps[0] == comp {
 						out = append(out, emitSite{st: derefType(c.typeOf(arg)), conds: conds, pos: arg.Pos(), recv: recv})
+					}
+				}
+				// for _, part := range parts { json.Marshal(part) } where parts is the (variadic) parameter followed here
+				if id, ok := arg.(*ast.Ident); ok && comp == "" {
+					if src := c.rangeSourceOf(fd, c.objOf(id)); src != nil {
+						if sid, ok := unparen(src).(*ast.Ident); ok && c.objOf(sid) == recv {
+							if sl, isSlice := recv.Type().Underlying().(*types.Slice); isSlice {
+								out = append(out, emitSite{st: sl.Elem(), conds: conds, pos: arg.Pos(), recv: recv})
+							}
+						}
 					}
 				}
 				// for _, part := range [...]interface{}{recv.A, recv.B} { json.Marshal(part) }
@@ -450,15 +500,16 @@ func (c *Ctx) decideRequired(rule, key string, n *types.Named, d *metaDef, m str
 	env := defEnv{d}
 	// collect the (struct type, omitempty) variants under which m may be emitted
 	type variant struct {
-		jf  jsonField
-		pos token.Pos
+		jf   jsonField
+		pos  token.Pos
+		site *emitSite
 	}
 	var variants []variant
 	st := n.Underlying().(*types.Struct)
 	marshal := declaredMethod(n, "MarshalJSON")
 	if marshal == nil {
 		if jf := findJSONField(jsonFields(n), m); jf != nil {
-			variants = append(variants, variant{*jf, pos})
+			variants = append(variants, variant{*jf, pos, nil})
 		}
 	} else {
 		fd := c.decl(marshal)
@@ -506,7 +557,8 @@ func (c *Ctx) decideRequired(rule, key string, n *types.Named, d *metaDef, m str
 						c.saw(c.funcName(cfd))
 						for _, cs := range c.emitSites(cfd, "") {
 							if jf := findJSONField(jsonFields(cs.st), m); jf != nil {
-								variants = append(variants, variant{*jf, cs.pos})
+								cs := cs
+								variants = append(variants, variant{*jf, cs.pos, &cs})
 							} else {
 								c.ob(rule, key, cs.pos, false, fmt.Sprintf("encoder variant does not carry required member %q", m))
 								return
@@ -516,7 +568,8 @@ func (c *Ctx) decideRequired(rule, key string, n *types.Named, d *metaDef, m str
 					}
 				}
 				if jf := findJSONField(jsonFields(stt), m); jf != nil {
-					variants = append(variants, variant{*jf, s.pos})
+					s := s
+					variants = append(variants, variant{*jf, s.pos, &s})
 				} else {
 					c.ob(rule, key, s.pos, false, fmt.Sprintf("encoder variant does not carry required member %q", m))
 					return
@@ -537,6 +590,12 @@ func (c *Ctx) decideRequired(rule, key string, n *types.Named, d *metaDef, m str
 		switch u := ft.Underlying().(type) {
 		case *types.Pointer, *types.Struct, *types.Interface:
 			_ = u // a present, non-null member decodes to a non-nil / non-omittable value
+			// ... unless the field belongs to an encode proxy and is computed: then what the computation yields counts
+			if _, isPtr := u.(*types.Pointer); isPtr && v.jf.OmitEmpty && v.site != nil && v.site.lit != nil {
+				if w := c.proxyPointerMayBeNil(v.site, v.jf.GoName, env); w != "" {
+					ok, why = false, fmt.Sprintf("required member %q is held by an omitempty pointer of an encode proxy, and %s: a valid document re-encodes without the member", m, w)
+				}
+			}
 		case *types.Basic:
 			switch {
 			case !v.jf.OmitEmpty:
@@ -611,4 +670,85 @@ func (c *Ctx) onlyEmbeddedBefore(t types.Type, steps []string) bool {
 		}
 	}
 	return true
+}
+
+// proxyPointerMayBeNil: the value given to the pointer field of the encode proxy literal is computed by a package
+// function or method that returns nil on a path a document valid for the definition can take. Returns the
+// reason, or "".
+func (c *Ctx) proxyPointerMayBeNil(site *emitSite, goName string, env defEnv) string {
+	var val ast.Expr
+	for _, el := range site.lit.Elts {
+		if kv, ok := el.(*ast.KeyValueExpr); ok {
+			if id, ok := kv.Key.(*ast.Ident); ok && id.Name == goName {
+				val = kv.Value
+			}
+		}
+	}
+	if val == nil {
+		return ""
+	}
+	call, ok := unparen(val).(*ast.CallExpr)
+	if !ok {
+		return ""
+	}
+	g, _ := c.callee(call).(*types.Func)
+	if g == nil || g.Pkg() != c.Types {
+		return ""
+	}
+	gfd := c.decl(g)
+	if gfd == nil || gfd.Body == nil {
+		return ""
+	}
+	// the callee's view of the value being encoded: its receiver when called on the site's receiver, else a parameter
+	var grecv types.Object
+	if se, ok := unparen(call.Fun).(*ast.SelectorExpr); ok && gfd.Recv != nil {
+		if id, ok := unparen(se.X).(*ast.Ident); ok && c.objOf(id) == site.recv {
+			grecv = c.recvObj(gfd)
+		}
+	}
+	for i, a := range call.Args {
+		if id, ok := unparen(a).(*ast.Ident); ok && c.objOf(id) == site.recv {
+			grecv = c.paramObj(gfd, i)
+		}
+	}
+	reason := ""
+	ast.Inspect(gfd.Body, func(n ast.Node) bool {
+		if _, isLit := n.(*ast.FuncLit); isLit {
+			return false
+		}
+		rs, ok := n.(*ast.ReturnStmt)
+		if !ok || len(rs.Results) != 1 || !isNilIdent(c, rs.Results[0]) {
+			return true
+		}
+		reach := true
+		var conds []string
+		for _, cl := range c.condsAt(gfd, rs) {
+			// a disjunction is possible when one of its sides is
+			possible := false
+			for _, d := range splitDisj(cl) {
+				v := -1
+				if grecv != nil {
+					v = c.evalCondB(d.e, grecv, env, nil)
+					if v >= 0 && d.neg {
+						v = 1 - v
+					}
+				}
+				if v != 0 {
+					possible = true
+				}
+			}
+			if !possible {
+				reach = false
+			}
+			conds = append(conds, exprString(cl.e))
+		}
+		if reach && reason == "" {
+			reason = c.funcName(gfd) + " yields nil when " + strings.Join(conds, " and ")
+			if len(conds) == 0 {
+				reason = c.funcName(gfd) + " can yield nil"
+			}
+		}
+		return true
+	})
+	return reason
 }
